@@ -587,6 +587,114 @@ def ended_stays_ended(ctx):
                     pass
 
 
+def serving_loop_left_by_a_failure(ctx):
+    """'a side that meets the failure while serving becomes closed': a thread sits in serve_all() on a real socketpair and the loop is
+    left by something that is NOT an end-of-stream - (a) the transport's poll() fails with an OS error (EIO) while the side is idle
+    or right after it has answered a request, (b) a handler raises KeyboardInterrupt, which the default configuration propagates
+    locally, (c) the peer sends a packet that does not decode. Whatever comes out of serve_all(), once it has returned the side must
+    report closed, its disconnect hook must have run exactly once, nothing may still be held for the peer, and closing again is a
+    no-op. Verdict on state after the serving thread has ended (the join only bounds the observation)."""
+    import errno
+    import socket
+    import threading
+    import rpyc
+    from rpyc.core import stream as stream_mod
+    from rpyc.core.channel import Channel
+
+    class FailingPollStream(stream_mod.SocketStream):
+        __slots__ = ("armed", "npolls")
+
+        def poll(self, timeout):
+            from rpyc.lib import Timeout
+            t = Timeout(timeout)
+            while True:
+                self.npolls = getattr(self, "npolls", 0) + 1
+                if getattr(self, "armed", False):
+                    raise OSError(errno.EIO, "Input/output error (injected into poll)")
+                if stream_mod.SocketStream.poll(self, min(0.02, t.timeleft()) if t.finite else 0.02):
+                    return True
+                if t.expired():
+                    return False
+
+    for cause in ("poll-fails-idle", "poll-fails-after-reply", "handler-raises-KeyboardInterrupt", "undecodable-packet"):
+        hooks = []
+
+        class Svc(rpyc.Service):
+            def on_disconnect(self, conn):
+                hooks.append(1)
+
+            def exposed_make(self):
+                return [1, 2, 3]
+
+            def exposed_interrupt(self):
+                raise KeyboardInterrupt()
+        s1, s2 = socket.socketpair()
+        vstream = FailingPollStream(s1)
+        victim = Svc()._connect(Channel(vstream), {})
+        peer = rpyc.VoidService()._connect(Channel(stream_mod.SocketStream(s2)), {"sync_request_timeout": 5})
+        out = {}
+
+        def serve(victim=victim, out=out):
+            try:
+                victim.serve_all()
+                out["left"] = "returned"
+            except BaseException as e:
+                out["left"] = type(e).__name__
+        th = threading.Thread(target=serve, daemon=True, name="rv-serving-loop")
+        th.start()
+        wit = dict(family="serving-loop-left-by-a-failure", cause=cause)
+        try:
+            held = peer.root.make()            # the victim now holds an object for the peer
+            if cause == "poll-fails-idle":
+                vstream.armed = True
+            elif cause == "poll-fails-after-reply":
+                ar = rpyc.async_(peer.root.make)()
+                ar.wait()
+                vstream.armed = True
+            elif cause == "handler-raises-KeyboardInterrupt":
+                ar = rpyc.async_(peer.root.interrupt)()
+            else:
+                peer._channel.send(b"\xff\xfe this is not a message")
+            th.join(10)
+            ctx.case(("serving-loop-left", cause), nontrivial=True)
+            ctx.count("serving_loops_left_by_a_failure")
+            if th.is_alive():
+                ctx.inconclusive("serving-loop scenario %s: serve_all() did not end within 10 s" % cause)
+                continue
+            wit["serve_all"] = out.get("left")
+            if not victim.closed:
+                ctx.violation("C11/real/serving-loop/%s/not-closed" % cause, "serve_all() was left (%s) by a failure that is not an end-of-stream, and the side "
+                              "does not report closed (disconnect hook ran %d times, %d object(s) still held for the peer)" % (
+                                  out.get("left"), len(hooks), len(victim._local_objects._dict) if victim._local_objects is not None else 0), wit)
+                continue
+            if len(hooks) != 1:
+                ctx.violation("C11/real/serving-loop/%s/hook-count" % cause, "the disconnect hook ran %d times" % len(hooks), wit)
+            try:
+                victim.close()
+            except Exception as e:
+                ctx.violation("C11/real/serving-loop/%s/second-close-raises" % cause, "closing again raised %r" % (e,), wit)
+            if len(hooks) > 1:
+                ctx.violation("C11/real/serving-loop/%s/hook-ran-twice" % cause, "the disconnect hook ran %d times" % len(hooks), wit)
+            # the peer: whatever it asks now fails with EOFError (or its own time limit), it does not hang and gets no value
+            try:
+                v = peer.root.make()
+                ctx.violation("C11/real/serving-loop/%s/peer-got-a-value" % cause, "a request issued after the serving side had ended returned %r" % (v,), wit)
+            except (EOFError, TimeoutError):
+                pass
+            except Exception as e:
+                ctx.violation("C11/real/serving-loop/%s/peer-wrong-exception" % cause, "a request issued after the serving side had ended raised %r" % (e,), wit)
+        except Exception as e:
+            ctx.violation("C11/real/serving-loop/%s/aborted/%s" % (cause, type(e).__name__), "scenario aborted: %r" % (e,), wit)
+        finally:
+            held = ar = None
+            for c in (peer, victim):
+                try:
+                    c.close()
+                except BaseException:
+                    pass
+            th.join(3)
+
+
 def local_close_wakes_waiters(ctx):
     """'every request that was blocked waiting fails with EOFError: none hangs' when the LOCAL side closes: a thread of the closing
     side sits in a request to a peer that stays silent (no time limit), another thread of the same side calls close(). Real
@@ -671,6 +779,7 @@ def run(ctx):
     if ctx.shard[0] == 0:
         ended_stays_ended(ctx)
         local_close_wakes_waiters(ctx)
+        serving_loop_left_by_a_failure(ctx)
         real_streams(ctx)
         if ctx.enough():
             return
